@@ -20,6 +20,7 @@ behaviour program (pure function of the incoming set):
     stall     {'at': k, 'ms': d}: the k-th process() call (0-based) blocks for d ms before returning
     idle_ms   (src) sleep per idle call once the stream is finished (default 50)
 """
+import json
 import logging
 import random
 import threading
@@ -92,6 +93,7 @@ class Pipeline:
         self.actors = {}            # (id, inc) -> Actor
         self.uid_ctr = {}
         self.filters = {}           # (id, inc) -> Filter instance (once constructed)
+        self.sent = {}              # uid -> payload signature at the publisher (when keep_payload)
         self.cls = self._make_class()
 
     # ---- config -----------------------------------------------------------------------------------------------------
@@ -154,12 +156,16 @@ class Pipeline:
                     data['extra'] = extra
                 if img:
                     import numpy as np
-                    a = np.full((2, 3, 3), (seq * 7 + 13) % 256, np.uint8)
-                    f = Frame(a, data, 'BGR')
+                    a = (np.arange(4 * 5 * 3, dtype=np.int64).reshape(4, 5, 3) * 11 + seq * 7 + 13).astype(np.uint8) if img != 'gray' else \
+                        (np.arange(4 * 5, dtype=np.int64).reshape(4, 5) * 9 + seq * 3).astype(np.uint8)
+                    f = Frame(a, data, 'BGR' if img != 'gray' else 'GRAY')
                     if img == 'jpg':
-                        f = Frame.from_jpg(bytes(f.ro.jpg), data, 2, 3, 'BGR')
-                    return f
-                return Frame(data)
+                        f = Frame.from_jpg(bytes(f.ro.jpg), data, 4, 5, 'BGR')
+                else:
+                    f = Frame(data)
+                if pipe.keep_payload:
+                    pipe.sent[data['uid']] = pipe.payload_sig(f)
+                return f
 
             def process(self, frames):
                 beh = self.beh
@@ -209,6 +215,7 @@ class Pipeline:
                     out = {}
                     for i, t in enumerate(topics):
                         out[t] = self.new_frame(origin, oinc, seq, t, path, parents, beh.get('img') if i == 0 else None)
+                    rec.setdefault('out_uids', []).extend(f.data['uid'] for f in out.values())
                     return out
                 if ret == 'frame':
                     rec['ret'] = 'frame'
@@ -238,9 +245,10 @@ class Pipeline:
     def payload_sig(frame):
         img = None
         if frame.has_image:
-            img = {'h': frame.height, 'w': frame.width, 'fmt': frame.format, 'jpg': bool(frame.has_jpg),
-                   'bytes': bytes(frame.jpg).hex() if frame.has_jpg else bytes(frame.image.tobytes()).hex()}
-        return {'data': frame.data, 'img': img}
+            img = {'h': frame.height, 'w': frame.width, 'fmt': frame.format,
+                   'jpg': bytes(frame.jpg).hex() if frame.has_jpg else None,
+                   'raw': bytes(frame.image.tobytes()).hex() if frame.has_raw else None}
+        return {'data': json.loads(json.dumps(frame.data)), 'img': img}
 
     def log(self, key, what, **kw):
         self.calls.setdefault(key, []).append({'t': self.world.now, 'ev': what, **kw})
